@@ -27,9 +27,9 @@ _real_truncate = os.truncate
 
 
 class SimRawFile(io.FileIO):
-    def __init__(self, fs, path, mode):
+    def __init__(self, fs, path, mode, fd=None):
         self._fs = None
-        super().__init__(path, mode)
+        super().__init__(path if fd is None else fd, mode)
         self._fs = fs
         self._path = path
 
@@ -103,6 +103,26 @@ class SimFS:
 
     # ---- patched entry points
     def open(self, file, mode='r', buffering=-1, encoding=None, errors=None, newline=None, closefd=True, opener=None):
+        if opener is not None and not isinstance(file, int) and self.inside(file) and os.path.isdir(file) and any(c in mode for c in 'wax+') and 'b' in mode:
+            # tempfile.NamedTemporaryFile(dir=<sandbox>): the opener creates the file and hands back its descriptor; its writes are
+            # file operations like any other (a full disk does not spare the scratch files)
+            fd = opener(file, os.O_RDWR)
+            try:
+                path = os.readlink('/proc/self/fd/%d' % fd)
+            except OSError:
+                path = os.path.join(os.fspath(file), 'tmp-fd-%d' % fd)
+            act = self.step('open', path, mode)
+            if act is not None and act[0] in ('error', 'torn-error'):
+                os.close(fd)
+                try:
+                    _real_unlink(path)
+                except OSError:
+                    pass
+                raise OSError(act[-1], os.strerror(act[-1]))
+            raw = SimRawFile(self, path, mode.replace('b', '').replace('t', ''), fd=fd)
+            if buffering == 0:
+                return raw
+            return io.BufferedRandom(raw) if '+' in mode else io.BufferedWriter(raw)
         if isinstance(file, int) or opener is not None or not self.inside(file) or not any(c in mode for c in 'wax+') or os.path.isdir(file):
             return _real_open(file, mode, buffering, encoding, errors, newline, closefd, opener)
         act = self.step('open', file, mode)
